@@ -10,11 +10,17 @@ TLC:  MCSandbox over the LIVE universe (every name bound in each live configurat
       (self-test); SandboxClosed is model-checked as a PREDICTION (candidates, never a verdict); TLC writes the probe
       vectors configuration x name x route x prelude (the script first binds the names the sandbox lacks itself:
       def / defn / defmac) x process history (sandbox first | after an unsandboxed interpreter)
-bind: the harness renders every vector under 17 argument shapes and runs every probe on the real interpreter in a
-      subprocess / on the real `zygo -sandbox` binary, in a throw-away directory with canaries (file secret, paths that
-      must not appear, shell marker, environment secret, inotify), plus seeded grammar-generated programs; TLC validates
-      every recorded probe against SandboxTrace: the observed event set of a sandboxed configuration is empty; the
-      unsandboxed control must show every capability of every known primitive (else the probes are blind -> exit 2)
+bind: the harness renders every vector under 17 canary argument shapes (every route) and 8 value shapes (direct route:
+      a value that contains itself through an array / a hash / a list, handed over once or twice; a text nested
+      without bound; a form that leaves no value) and runs every probe on the real interpreter in a subprocess / on
+      the real `zygo -sandbox` binary, in a throw-away directory with canaries (file secret, paths that must not
+      appear, shell marker, environment secret, inotify), plus seeded grammar-generated programs and program texts
+      nested without bound; TLC validates every recorded probe against SandboxTrace: the observed event set of a
+      sandboxed configuration is empty AND the host process is still there and answers after the probe (host
+      protocol, Sandbox!HostStates: the end of the host by exit, by a Go fatal error or by an unrecovered panic is the
+      effect "exit the host process"); the unsandboxed control must show every capability of every known primitive,
+      and two host primitives bound there by the harness must show the observation "fatal" (else the probes are
+      blind -> exit 2)
 """
 import json, os, subprocess, time
 import vlib, flow
@@ -155,6 +161,13 @@ def run():
     unobserved = sorted(set(predicted) - observed)
     nsand = {cfg: sum(1 for n in u["names"] if n["kind"][i] != "unbound" or n["mac"][i] or n["special"])
              for i, cfg in enumerate(u["cfgs"])}
+    hosts = {}
+    for c in cases.values():
+        for e in c["evs"]:
+            k = ("control " if c["cfg"] == "full" else "") + e["host"]
+            hosts[k] = hosts.get(k, 0) + 1
+    canary_shapes = [x for x in u["shapes"] if x in ("none", "int", "int0") or x.split("-")[0] in ("path", "path2", "val", "hash", "cmd", "env")]
+    value_shapes = [x for x in u["shapes"] if x not in canary_shapes]
     samples = []
 
     def pick(pred):
@@ -167,6 +180,8 @@ def run():
          and sum(1 for e in c["evs"] if e["out"] == "val") >= 3)
     pick(lambda c: c["kind"] == "prog" and c["cfg"] == "cmd" and c["evs"] and c["evs"][0]["out"] == "val")
     pick(lambda c: c["kind"] == "control" and c["route"] == "direct" and any(e["events"] for e in c["evs"]))
+    pick(lambda c: c["kind"] == "probe" and c["cfg"] != "full" and c["route"] == "direct"
+         and sum(1 for e in c["evs"] if e["shape"] in value_shapes and e["out"] in ("val", "nilres")) >= 2)
     pick(lambda c: c["kind"] == "probe")
     out.samples = samples
     out.extra["model_prediction"] = {
@@ -189,11 +204,13 @@ def run():
                 "callable), plus distinct generated programs that evaluated to a value; inputs: every name of the live universe "
                 "(bound in any configuration incl. the unsandboxed one, macros, special forms of GenerateCallBySymbol, reserved "
                 "words, repl commands) x every route (names a configuration cannot call: routes direct and sym only in the quick "
-                "tier) x 17 argument shapes x {bare, std, cmd}; the same again after the script has bound the names the sandbox lacks itself "
+                "tier) x %d canary argument shapes, and through the direct route %d value shapes (a value that contains itself, "
+                "a text nested 2^18 levels, a form that leaves no value), x {bare, std, cmd}; the canary shapes again after the script has bound the names the sandbox lacks itself "
                 "(quick: defn of every such name through the routes direct = earlier evaluations and eval = same text, defmac through "
                 "direct; thorough: def, defn, defmac through every route) and in a process where an unsandboxed interpreter was set up and used first and between "
                 "sessions (quick: every name, routes direct and sym; thorough: every route, also combined with the prelude); the unsandboxed control for the known primitives; seeded "
-                "grammar-generated programs (9 callee forms x up to 3 of 16 wrappers)",
+                "grammar-generated programs (9 callee forms x every argument shape x up to 3 of 16 wrappers) and 7 program texts "
+                "nested 2^18 levels per configuration" % (len(canary_shapes), len(value_shapes)),
         "cases": len(cases),
         "cases_per_variant": variants,
         "universe_names": len(u["names"]),
@@ -201,15 +218,26 @@ def run():
         "special_forms": len(u["special"]),
         "routes": u["routes"],
         "shapes": u["shapes"],
+        "value_shapes": value_shapes,
+        "host_after_probe": hosts,
         "control_routes_fired": {r: len(s) for r, s in fired.items()},
         "probe_outcomes": outs,
         "states": out.states, "transitions": out.transitions,
         "traces_validated_against_impl": out.traces,
     }
     return flow.finish(out, "exploration", cov, [
-        "only the canaries are watched: effects without a canary (network, clock, stdout, memory/CPU exhaustion) are outside the statement",
-        "a Go panic or fatal error that kills the process (e.g. (and), (read \"x\") at the repl) is recorded as crash, not as an exit event: "
-        "panics are the statement of another property",
+        "only the canaries and the host process are watched: effects without a canary (network, clock, stdout) are outside the statement",
+        "'exit the host process' is read by its effect: the host is gone. The end of the host by a Go fatal error (recover() cannot stop it) "
+        "or by a panic nothing recovers is an observation of it, like an exit with a status; the in-process hosts recover every panic of the "
+        "evaluating goroutine (a panic that a careful embedder stops is C01's statement, not an exit); cmd/zygo is taken as it is",
+        "time and memory are not bounded by the statement: a probe that does not answer within 8 s is stopped by the harness (host 'stopped'), "
+        "a host the machine refuses memory (fatal error: out of memory, kill from outside) is 'starved'; neither is an observation of the "
+        "effect, and single requests for more memory than a machine has ((makeArray 100000000000)) are not generated: whether they end the "
+        "process is decided by the machine (overcommit, RAM), not by the library, and any allocating loop does the same",
+        "every host bounds its goroutine stacks to 16 MB (debug.SetMaxStack; cmd/zygo through ZV_MAXSTACK, read by one init function added "
+        "to its build with -overlay, nothing else differs from the repository's command): unbounded Go recursion ends in the same fatal "
+        "error as at Go's default bound of 1 GB, in a second instead of minutes; values nested deeper than a 16 MB stack allows without "
+        "containing themselves (built by a loop of > 10^5 steps) are not generated (step budget 200000)",
         "learning whether a path exists (import/bload/slurpf answer differently) is not counted as reading the file",
         "the macros of `zygo -sandbox` cannot be listed from outside and are taken from the in-process std configuration; its global "
         "bindings are observed through (defined? ...) on the real binary; an environment change inside the zygo process is not "
